@@ -176,7 +176,12 @@ fn axis_coords(rules: &[RuleN], a: usize, lo: i64, hi: i64, u: i64, step: i64) -
             for c in b {
                 if c.0 == a {
                     for e in [clamp_lo(c.1, u), clamp_hi(c.2, u)] {
-                        for v in [e - step, e, e + step] {
+                        // an edge between two grid points: the nearest grid point is ambiguous (the font
+                        // stores the rounded edge), its two neighbours are not
+                        let on_grid = e.rem_euclid(step) == 0;
+                        let q = if e >= 0 { (2 * e + step) / (2 * step) * step } else { -((-2 * e + step) / (2 * step)) * step };
+                        let cand = if on_grid { vec![e - step, e, e + step] } else { vec![q - step, q + step] };
+                        for v in cand {
                             if lo <= v && v <= hi {
                                 s.insert(v);
                             }
@@ -498,29 +503,40 @@ fn crafted_65b() -> Vec<RuleN> {
 }
 
 // ---- stage E: through the compiler ------------------------------------------------------------
-const UQ: i64 = 16384;
+/// stage E works in units of 1/(16384 * 1000): every normalized value of the generated axes
+/// (0..1024 or 0..1000, default at an end or in the middle) is an integer then, F2Dot14 grid points
+/// are the multiples of KQ, and the model's to_f2dot14 rounding is exercised on the 0..1000 axes
+const KQ: i64 = 1000;
+const UE: i64 = 16384 * KQ;
+
+/// F2Dot14::from_f64 on a value given in 1/UE units: round half away from zero
+fn q14(z: i64) -> i64 {
+    let q = if z >= 0 { (2 * z + KQ) / (2 * KQ) } else { -((-2 * z + KQ) / (2 * KQ)) };
+    q.clamp(-32768, 32767)
+}
 
 #[derive(Clone, Debug)]
 struct AxisE {
     tag: usize,   // index into TAGS
-    dflt: i64,    // 0, 512 or 1024 on an axis 0..1024
+    dflt: i64,    // 0, max/2 or max on an axis 0..max
+    max: i64,     // 1024 or 1000
 }
 impl AxisE {
     fn dom(&self) -> (i64, i64) {
-        (if self.dflt == 0 { 0 } else { -UQ }, if self.dflt == 1024 { 0 } else { UQ })
+        (if self.dflt == 0 { 0 } else { -UE }, if self.dflt == self.max { 0 } else { UE })
     }
-    /// design -> normalized, in 1/16384 units, as DesignCoord::to_normalized computes it
+    /// design -> normalized, in 1/UE units, as DesignCoord::to_normalized computes it
     /// (linear inside the axis range, offset by the end point outside of it)
     fn norm(&self, v: i64) -> i64 {
         let (lo_n, hi_n) = self.dom();
         if v < 0 {
-            v * UQ + lo_n
-        } else if v > 1024 {
-            (v - 1024) * UQ + hi_n
+            v * UE + lo_n
+        } else if v > self.max {
+            (v - self.max) * UE + hi_n
         } else if v <= self.dflt {
-            if self.dflt == 0 { 0 } else { (v - self.dflt) * UQ / self.dflt }
+            if self.dflt == 0 { 0 } else { (v - self.dflt) * (UE / self.dflt) }
         } else {
-            (v - self.dflt) * UQ / (1024 - self.dflt)
+            (v - self.dflt) * (UE / (self.max - self.dflt))
         }
     }
 }
@@ -543,15 +559,23 @@ fn gen_case_e(rng: &mut Rng, nrules: usize, messy: bool) -> CaseE {
     let naxes = rng.range(1, 3) as usize;
     let mut tags: Vec<usize> = vec![0, 1, 2];
     rng.shuffle(&mut tags);
-    let axes: Vec<AxisE> = tags[..naxes].iter().map(|t| AxisE { tag: *t, dflt: *rng.pick(&[0, 0, 512, 512, 1024]) }).collect();
-    let pools: Vec<Vec<i64>> = (0..naxes)
-        .map(|_| {
+    let axes: Vec<AxisE> = tags[..naxes]
+        .iter()
+        .map(|t| {
+            let max = if rng.chance(1, 3) { 1000 } else { 1024 };
+            AxisE { tag: *t, dflt: *rng.pick(&[0, 0, max / 2, max / 2, max]), max }
+        })
+        .collect();
+    let pools: Vec<Vec<i64>> = axes
+        .iter()
+        .map(|ax| {
             let k = rng.range(2, 4) as usize;
-            let mut v: Vec<i64> = (0..k).map(|_| rng.range(1, 15) * 64).collect();
+            // on a 0..1000 axis the edges do not fall on the F2Dot14 grid
+            let mut v: Vec<i64> = (0..k).map(|_| if ax.max == 1000 { rng.range(1, 999) } else { rng.range(1, 15) * 64 }).collect();
             v.push(0);
-            v.push(1024);
+            v.push(ax.max);
             if rng.chance(1, 2) {
-                v.push(512);
+                v.push(ax.max / 2);
             }
             v
         })
@@ -654,7 +678,7 @@ impl CaseE {
     fn design(&self, idx: usize) -> Design {
         let mut d = Design { family: format!("C16F{idx}"), upem: 1000, ..Default::default() };
         for ax in &self.axes {
-            d.axes.push(AxisSrc { name: AXNAMES[ax.tag].into(), tag: TAGS[ax.tag].into(), min: 0.0, default: ax.dflt as f64, max: 1024.0, map: vec![], hidden: false });
+            d.axes.push(AxisSrc { name: AXNAMES[ax.tag].into(), tag: TAGS[ax.tag].into(), min: 0.0, default: ax.dflt as f64, max: ax.max as f64, map: vec![], hidden: false });
         }
         let glyphs = |w: f64| -> Vec<GlyphSrc> {
             let mut v = vec![GlyphSrc::new(".notdef", 500.0).rect(50.0, 0.0, 450.0, 700.0)];
@@ -672,7 +696,7 @@ impl CaseE {
         d.masters.push(Master { name: "M0".into(), style: "Regular".into(), location: defloc.clone(), glyphs: glyphs(0.0), glyph_order: Some(order.clone()), ..Default::default() });
         let mut k = 1;
         for (i, a) in self.axes.iter().enumerate() {
-            for end in [0i64, 1024] {
+            for end in [0i64, a.max] {
                 if end == a.dflt {
                     continue;
                 }
@@ -789,19 +813,19 @@ fn stage_e_case(rng: &mut Rng, t: &mut Tally, id: &mut usize, idx: usize, kind: 
     let dir = scratch_dir("c16");
     let path = d.write_designspace(dir.path());
     let out = compile_path(&path, None, None);
-    let input = json!({"designspace": d.designspace_xml(), "normalized_rules": rules_json(&rules, UQ)});
+    let input = json!({"designspace": d.designspace_xml(), "normalized_rules": rules_json(&rules, UE)});
     // points live in the space of all three tags; axes the design does not have stay at 0
     let mut doms = vec![(0i64, 0i64); 3];
     for a in &c.axes {
         doms[a.tag] = a.dom();
     }
-    let pts = points(rng, &rules, &doms, UQ, 1, cap);
+    let pts = points(rng, &rules, &doms, UE, KQ, cap);
     let env = coq_list(&c.axes.iter().enumerate().collect::<Vec<_>>(), |(i, a)| {
-        format!("({}, {{| ax_index := {}; ax_minq := {}; ax_maxq := {} |}})", coq_n(a.tag as u64 + 1), coq_n(*i as u64), coq_z(a.dom().0), coq_z(a.dom().1))
+        format!("({}, {{| ax_index := {}; ax_minq := {}; ax_maxq := {} |}})", coq_n(a.tag as u64 + 1), coq_n(*i as u64), coq_z(a.dom().0 / KQ), coq_z(a.dom().1 / KQ))
     });
-    let model = format!("compile_rules {} {} {}", coq_z(UQ), env, coq_rules(&rules, UQ));
+    let model = format!("compile_rules {} {} {}", coq_z(UE), env, coq_rules(&rules, UE));
     *t.kinds.entry(kind.to_string()).or_insert(0) += 1;
-    let nontrivial = rules.len() >= 2 && overlaps_somewhere(&rules, &pts, UQ);
+    let nontrivial = rules.len() >= 2 && overlaps_somewhere(&rules, &pts, UE);
     let mut finish = |expect: String, extra: serde_json::Value| {
         emit_case(*id, kind, format!("gsub_res_eqb ({model}) {expect}"), Some(model.clone()), nontrivial, format!("{:?}{:?}", c.axes, c.rules), extra);
         *id += 1;
@@ -827,9 +851,9 @@ fn stage_e_case(rng: &mut Rng, t: &mut Tally, id: &mut usize, idx: usize, kind: 
         }
     };
     // the real overlay on the same rules, to recognise ConditionSet collisions
-    let items = run_overlay(&rules, UQ).unwrap_or_default();
-    let dropped = |a: usize, mn: i64, mx: i64| c.axes.iter().any(|ax| ax.tag == a && ax.dom() == (mn, mx));
-    let cs_of = |b: &BoxN| -> Vec<(usize, i64, i64)> { b.iter().filter(|(a, mn, mx)| !dropped(*a, *mn, *mx)).cloned().collect() };
+    let items = run_overlay(&rules, UE).unwrap_or_default();
+    let dropped = |a: usize, mn: i64, mx: i64| c.axes.iter().any(|ax| ax.tag == a && (q14(ax.dom().0), q14(ax.dom().1)) == (q14(mn), q14(mx)));
+    let cs_of = |b: &BoxN| -> Vec<(usize, i64, i64)> { b.iter().filter(|(a, mn, mx)| !dropped(*a, *mn, *mx)).map(|(a, mn, mx)| (*a, q14(*mn), q14(*mx))).collect() };
     let collision_at = |p: &[i64]| -> Option<&'static str> {
         let i = items.iter().position(|(b, _)| in_box(p, b))?;
         let cs = cs_of(&items[i].0);
@@ -837,7 +861,7 @@ fn stage_e_case(rng: &mut Rng, t: &mut Tally, id: &mut usize, idx: usize, kind: 
     };
     let font = |p: &[i64]| -> Option<Vec<SubMap>> {
         let rec = fv.records.iter().find(|(conds, _)| conds.iter().all(|(ai, mn, mx)| {
-            let v = c.axes.get(*ai as usize).map(|a| p[a.tag]).unwrap_or(0);
+            let v = c.axes.get(*ai as usize).map(|a| p[a.tag] / KQ).unwrap_or(0);
             *mn <= v && v <= *mx
         }))?;
         let mut idx = rec.1.clone();
@@ -845,7 +869,7 @@ fn stage_e_case(rng: &mut Rng, t: &mut Tally, id: &mut usize, idx: usize, kind: 
         idx.dedup();
         Some(idx.iter().filter_map(|i| fv.lookups.get(*i as usize).cloned()).collect())
     };
-    check_points(t, "font", &rules, &pts, UQ, c.nglyphs, &font, &collision_at, &input, true, &c.axes.iter().map(|a| a.tag).collect::<Vec<_>>());
+    check_points(t, "font", &rules, &pts, UE, c.nglyphs, &font, &collision_at, &input, true, &c.axes.iter().map(|a| a.tag).collect::<Vec<_>>());
     let expect = format!(
         "(Some ({}, {}))",
         coq_list(&fv.lookups, coq_submap),
@@ -876,7 +900,7 @@ fn main() {
         (
             "font-fullrange-condition",
             CaseE {
-                axes: vec![AxisE { tag: 2, dflt: 0 }, AxisE { tag: 1, dflt: 512 }],
+                axes: vec![AxisE { tag: 2, dflt: 0, max: 1024 }, AxisE { tag: 1, dflt: 512, max: 1024 }],
                 rules: vec![
                     RuleD { condsets: vec![vec![(1, Some(896), None)]], subs: vec![(0, 1)] },
                     RuleD { condsets: vec![vec![(0, Some(0), Some(1024)), (1, Some(896), None)]], subs: vec![(2, 3)] },
@@ -888,7 +912,7 @@ fn main() {
         (
             "font-conflicting-subs",
             CaseE {
-                axes: vec![AxisE { tag: 2, dflt: 0 }, AxisE { tag: 1, dflt: 512 }],
+                axes: vec![AxisE { tag: 2, dflt: 0, max: 1024 }, AxisE { tag: 1, dflt: 512, max: 1024 }],
                 rules: vec![
                     RuleD { condsets: vec![vec![(1, Some(896), None)]], subs: vec![(0, 2)] },
                     RuleD { condsets: vec![vec![(0, Some(512), None)]], subs: vec![(0, 1)] },
@@ -898,7 +922,7 @@ fn main() {
             },
         ),
     ];
-    let one_axis = |rules: Vec<RuleD>| CaseE { axes: vec![AxisE { tag: 2, dflt: 0 }], rules, last: false, nglyphs: 6 };
+    let one_axis = |rules: Vec<RuleD>| CaseE { axes: vec![AxisE { tag: 2, dflt: 0, max: 1024 }], rules, last: false, nglyphs: 6 };
     let mut fixed = fixed;
     // wght <= 512 and wght >= 512 both hold at 512
     fixed.push(("font-touching-edges", one_axis(vec![
@@ -939,13 +963,13 @@ fn main() {
             .into_iter()
             .map(|r| RuleD { condsets: r.boxes.iter().map(|b| b.iter().map(|(_, mn, mx)| (0usize, mn.map(|v| (v + 1000) / 2), mx.map(|v| (v + 1000) / 2))).collect()).collect(), subs: r.subs })
             .collect();
-        let c = CaseE { axes: vec![AxisE { tag: 2, dflt: 0 }], rules, last: false, nglyphs: 130 };
+        let c = CaseE { axes: vec![AxisE { tag: 2, dflt: 0, max: 1024 }], rules, last: false, nglyphs: 130 };
         stage_e_case(&mut rng, &mut t, &mut id, 9100, "font-ge-65-rules", &c, 800);
         let rules: Vec<RuleD> = crafted_65b()
             .into_iter()
             .map(|r| RuleD { condsets: r.boxes.iter().map(|b| b.iter().map(|(_, mn, mx)| (0usize, mn.map(|v| (v + 1000) / 2), mx.map(|v| (v + 1000) / 2))).collect()).collect(), subs: r.subs })
             .collect();
-        let c = CaseE { axes: vec![AxisE { tag: 2, dflt: 0 }], rules, last: false, nglyphs: 130 };
+        let c = CaseE { axes: vec![AxisE { tag: 2, dflt: 0, max: 1024 }], rules, last: false, nglyphs: 130 };
         stage_e_case(&mut rng, &mut t, &mut id, 9101, "font-ge-65-rules", &c, 800);
     }
     // ---- stage A: overlay_feature_variations directly ----
